@@ -71,6 +71,10 @@ def check_mapping(n, S, removed_rows, I, sorted_flag, dtype):
         return [Failure('rdp.mapping', 'non-termination', key, case, str(v), size)]
     if st == 'raise':
         return [Failure('rdp.mapping', lib.exc_kind(v), key, case, repr(v), size)]
+    if dtype != 'list' and (idx_arg.tolist() != list(I) or reduced.tolist() != list(S) or removed.tolist() != np.array(removed_rows, dtype=removed.dtype).reshape(-1, 2).tolist()):
+        return [Failure('rdp.mapping', 'overwrites-its-arguments', key, case, 'after the call: indexes=%s reduced=%s removed=%s' % (idx_arg.tolist(), reduced.tolist(), removed.tolist()), size)]
+    if dtype == 'list' and idx_arg != list(I):
+        return [Failure('rdp.mapping', 'overwrites-its-arguments', key, case, 'after the call: indexes=%s' % idx_arg, size)]
     exp = [S[i] for i in I]
     try:
         got = [int(a) for a in np.asarray(v).tolist()]
